@@ -54,6 +54,24 @@ fn depth1(b: &[Ty], small: &[Ty]) -> Vec<Ty> {
     out
 }
 
+/// Sizes far above anything a hand-written test uses: list bounds up to 2^16, arrays up to 4097 elements (types only).
+pub fn large_types() -> Vec<Ty> {
+    let mut v = vec![];
+    for b in [1024usize, 2048, 4096, 65536] {
+        v.push(Ty::list(Ty::U(8), b));
+        v.push(Ty::list(Ty::unit(), b));
+        v.push(Ty::list(Ty::tup(vec![Ty::Bool, Ty::U(16)]), b));
+    }
+    for n in [100usize, 255, 300, 511, 1000, 1023, 1025, 4097] {
+        v.push(Ty::arr(Ty::U(8), n));
+        v.push(Ty::arr(Ty::Bool, n));
+    }
+    for n in [33usize, 64, 65, 100] {
+        v.push(Ty::tup((0..n).map(|i| if i % 2 == 0 { Ty::U(8) } else { Ty::U(1) }).collect()));
+    }
+    v
+}
+
 pub fn type_universe(quick: bool) -> Vec<Ty> {
     let b = base();
     let small = vec![Ty::unit(), Ty::Bool, Ty::U(1), Ty::U(8), Ty::U(16)];
@@ -103,6 +121,7 @@ pub fn type_universe(quick: bool) -> Vec<Ty> {
             }
         }
     }
+    all.extend(large_types());
     let mut seen = BTreeSet::new();
     all.retain(|t| seen.insert(t.clone()));
     all
